@@ -72,9 +72,9 @@ structure RT where
   ctx : Val := .invalid
   content : Option Closure := none
   writer : Wr := .top
-  top : List Chunk := []          -- most recent first
-  bufs : List (List Chunk) := []  -- try buffers, each most recent first
-  log : List LogE := []           -- most recent first
+  sink : Nat → List Chunk := fun _ => []   -- sink 0 = Execute's writer, sink (n+1) = try buffer n; most recent first
+  nbufs : Nat := 0                         -- number of try buffers allocated so far
+  log : List LogE := []                    -- most recent first
   deriving Inhabited
 
 inductive Res (α : Type) where
@@ -98,20 +98,54 @@ instance : Monad M where
 def getRT : M RT := fun rt => .ok rt rt
 def setRT (rt : RT) : M Unit := fun _ => .ok () rt
 def modifyRT (f : RT → RT) : M Unit := fun rt => .ok () (f rt)
-def throwErr {α} (e : Err) : M α := fun rt => .err e rt
-def crash {α} (msg : String) : M α := fun rt => .crash msg rt
-def unsupported {α} (w : String) : M α := fun _ => .unsupported w
-def outOfFuel {α} : M α := fun _ => .fuel
+/-- how a computation fails: a panic with an error value, a runtime panic, or "outside the model" -/
+inductive Fail where
+  | err (e : Err)
+  | crash (msg : String)
+  | unsupported (what : String)
+
+/-- pure helpers (everything that only looks at values) live in `P`; only code that touches the
+    runtime lives in `M` -/
+abbrev P (α : Type) := Except Fail α
+
+class Fails (m : Type → Type) where
+  failWith {α : Type} : Fail → m α
+
+instance : Fails P := ⟨fun f => .error f⟩
+
+instance : Fails M := ⟨fun f rt => match f with
+  | .err e => .err e rt
+  | .crash s => .crash s rt
+  | .unsupported w => .unsupported w⟩
+
+def liftP {α} (p : P α) : M α := fun rt =>
+  match p with
+  | .ok a => .ok a rt
+  | .error (.err e) => .err e rt
+  | .error (.crash s) => .crash s rt
+  | .error (.unsupported w) => .unsupported w
+
+instance : MonadLift P M := ⟨liftP⟩
+
+section
+variable {m : Type → Type} [Fails m]
+
+def throwErr {α} (e : Err) : m α := Fails.failWith (.err e)
+def crash {α} (msg : String) : m α := Fails.failWith (.crash msg)
+def unsupported {α} (w : String) : m α := Fails.failWith (.unsupported w)
 
 /-- `node.errorf(...)`: a located runtime error -/
-def errAt {α} (loc : Loc) (what : String) : M α := throwErr { located := true, loc := loc, what := what }
+def errAt {α} (loc : Loc) (what : String) : m α := throwErr { located := true, loc := loc, what := what }
 /-- `panic(fmt.Errorf(...))` / `a.Panicf(...)` / error returned by a helper: no position -/
-def errPlain {α} (what : String) : M α :=
+def errPlain {α} (what : String) : m α :=
   throwErr { located := false, loc := { path := [], line := 0 }, what := what }
 
-def liftOpt {α} (what : String) : Option α → M α
+def liftOpt [Monad m] {α} (what : String) : Option α → m α
   | some a => pure a
   | none => unsupported what
+end
+
+def outOfFuel {α} : M α := fun _ => .fuel
 
 /-! ### association lists -/
 
@@ -205,6 +239,65 @@ def getBlockChain (rt : RT) (name : Bytes) : List Nat → Option BlockN
 /-- `scope.getBlock` -/
 def getBlock (name : Bytes) : M (Option BlockN) := fun rt => .ok (getBlockChain rt name rt.scope) rt
 
+/-- run `m`, then `fin` on the resulting runtime whether `m` finished or panicked: a `defer` -/
+def deferred {α} (fin : RT → RT) (m : M α) : M α := fun rt =>
+  match m rt with
+  | .ok a rt' => .ok a (fin rt')
+  | .err e rt' => .err e (fin rt')
+  | .crash s rt' => .crash s (fin rt')
+  | .fuel => .fuel
+  | .unsupported w => .unsupported w
+
+def popScope (rt : RT) : RT :=
+  match rt.scope with
+  | [] => rt
+  | _ :: parent => { rt with scope := parent }
+
+/-! #### scoping combinators
+    Each names one save/restore idiom of eval.go.  "ND" = the restore is an ordinary statement
+    after the body (skipped when the body panics); "D" = the restore is a `defer`. -/
+
+/-- `st.newScope(); body; st.releaseScope()` -/
+def withNewScopeND {α} (body : M α) : M α := do
+  newScope
+  let a ← body
+  releaseScope
+  pure a
+
+/-- `st.newScope(); defer st.releaseScope(); body` -/
+def withNewScopeD {α} (body : M α) : M α := do
+  newScope
+  deferred popScope body
+
+/-- `c := st.context; st.context = v; body; st.context = c` -/
+def withCtxND {α} (v : Val) (body : M α) : M α := fun rt =>
+  match body { rt with ctx := v } with
+  | .ok a rt' => .ok a { rt' with ctx := rt.ctx }
+  | x => x
+
+/-- `c := st.context; defer func() { st.context = c }(); st.context = <e>; body` -/
+def withCtxD {α} (e : M Val) (body : M α) : M α := fun rt =>
+  deferred (fun rt' => { rt' with ctx := rt.ctx }) (do
+    let nv ← e
+    modifyRT fun rt' => { rt' with ctx := nv }
+    body) rt
+
+/-- `w := st.Writer; defer func() { st.Writer = w }(); st.Writer = w'; body` -/
+def withWriterD {α} (w' : Wr) (body : M α) : M α := fun rt =>
+  deferred (fun rt' => { rt' with writer := rt.writer }) body { rt with writer := w' }
+
+/-- run `body` with scope chain and content replaced; both put back afterwards (not deferred) -/
+def withScopeContentND {α} (sc : List Nat) (ct : Option Closure) (body : M α) : M α := fun rt =>
+  match body { rt with scope := sc, content := ct } with
+  | .ok a rt' => .ok a { rt' with scope := rt.scope, content := rt.content }
+  | x => x
+
+/-- `mycontent := st.content; st.content = c; body; st.content = mycontent` -/
+def withContentND {α} (c : Option Closure) (body : M α) : M α := fun rt =>
+  match body { rt with content := c } with
+  | .ok a rt' => .ok a { rt' with content := rt.content }
+  | x => x
+
 /-! ### built-in table (default.go `defaultVariables`) -/
 
 def b (s : String) : Bytes := s.toUTF8.toList
@@ -238,14 +331,15 @@ def resolve (env : Env) (name : Bytes) : M (Option Val) := fun rt =>
 
 /-! ### output -/
 
+def Wr.idx : Wr → Option Nat
+  | .top => some 0
+  | .buf n => some (n + 1)
+  | .discard => none
+
 def appendTo (rt : RT) (w : Wr) (cs : List Chunk) : RT :=
-  match w with
-  | .top => { rt with top := cs.reverse ++ rt.top }
-  | .discard => rt
-  | .buf n =>
-    match rt.bufs[n]? with
-    | some old => { rt with bufs := rt.bufs.set n (cs.reverse ++ old) }
-    | none => rt
+  match w.idx with
+  | none => rt
+  | some k => { rt with sink := fun j => if j = k then cs.reverse ++ rt.sink j else rt.sink j }
 
 /-- `st.Writer.Write(text)` -/
 def writeLit (bts : Bytes) : M Unit := fun rt =>
@@ -313,7 +407,7 @@ def parseInt10 (s : Bytes) : Option Int :=
     else (if n ≤ 9223372036854775807 then some (n : Int) else none)
 
 /-- eval.go `toInt` -/
-def toInt (v : Val) : M Int :=
+def toInt (v : Val) : P Int :=
   match v with
   | .invalid => errPlain "invalid value can't be converted to int64"
   | .int i => pure i
@@ -327,7 +421,7 @@ def toInt (v : Val) : M Int :=
   | _ => errPlain "type can't be converted to int64"
 
 /-- eval.go `toUint` -/
-def toUint (v : Val) : M Nat :=
+def toUint (v : Val) : P Nat :=
   match v with
   | .invalid => errPlain "invalid value can't be converted to uint64"
   | .uint u => pure u
@@ -341,7 +435,7 @@ def toUint (v : Val) : M Nat :=
   | _ => errPlain "type can't be converted to uint64"
 
 /-- eval.go `toFloat` -/
-def toFloat (v : Val) : M UInt64 :=
+def toFloat (v : Val) : P UInt64 :=
   match v with
   | .invalid => errPlain "invalid value can't be converted to float64"
   | .float bts => pure bts
@@ -391,8 +485,8 @@ def indirect : Nat → Val → Val × Bool
   | _, v => (v, false)
 
 /-- eval.go `indexArg` -/
-def indexArg (index : Val) (cap : Nat) : M Nat :=
-  let chk (x : Int) : M Nat :=
+def indexArg (index : Val) (cap : Nat) : P Nat :=
+  let chk (x : Int) : P Nat :=
     if x < 0 ∨ x ≥ cap then errPlain "index out of range" else pure x.toNat
   match index with
   | .int i => chk i
@@ -406,7 +500,7 @@ def elemOut (iface : Bool) (v : Val) : Val := if iface then Val.indirectEface (.
 
 /-- eval.go `resolveIndex(v, index, indexAsStr)`; `key` is the string form when the index is
     (or is given as) a string.  Methods are outside the modelled fragment. -/
-def resolveIndex (v : Val) (index : Val) (indexAsStr : Option Bytes) : M Val :=
+def resolveIndex (v : Val) (index : Val) (indexAsStr : Option Bytes) : P Val :=
   if !v.isValid then errPlain "there is no field or method in invalid value" else
   let (v, isNil) := indirect 8 v
   match v, isNil with
@@ -468,7 +562,7 @@ def scalarKindConvertible (a c : Val.Kind) : Option Bool :=
     else if (a == .string && (c == .int || c == .uint)) then none   -- int→string conversion: outside the fragment
     else some false
 
-def checkEquality (v1 v2 : Val) : M Bool :=
+def checkEquality (v1 v2 : Val) : P Bool :=
   let v1 := Val.indirectInterface v1
   let v2 := Val.indirectInterface v2
   if !v1.isValid || !v2.isValid then pure (v1.isValid == v2.isValid) else
@@ -495,7 +589,7 @@ def checkEquality (v1 v2 : Val) : M Bool :=
 
 /-! ### arithmetic -/
 
-def evalAdditive (loc lloc rloc : Loc) (isPlus : Bool) (left : Option Val) (right : Val) : M Val :=
+def evalAdditive (loc lloc rloc : Loc) (isPlus : Bool) (left : Option Val) (right : Val) : P Val :=
   match left with
   | none =>
     if !right.isValid then errAt loc "right side of additive expression is invalid value" else
@@ -530,15 +624,15 @@ def evalAdditive (loc lloc rloc : Loc) (isPlus : Bool) (left : Option Val) (righ
       | .opaque _ | .hidden _ => unsupported "additive on opaque"
       | _ => errAt lloc "additive expression: left side is not a numeric value"
 
-def evalMultiplicative (lloc rloc : Loc) (op : Tok) (left right : Val) : M Val :=
+def evalMultiplicative (lloc rloc : Loc) (op : Tok) (left right : Val) : P Val :=
   let needFloatPromotion := !isFloatV left && isFloatV right
-  let rightF : M UInt64 := match right with
+  let rightF : P UInt64 := match right with
     | .float f => pure f
     | _ => crash "unreachable: promotion without float"
-  let intDivisor : M Int := do
+  let intDivisor : P Int := do
     let d ← toInt right
     if d == 0 then errAt rloc "integer division by zero in multiplicative expression" else pure d
-  let uintDivisor : M Nat := do
+  let uintDivisor : P Nat := do
     let d ← toUint right
     if d == 0 then errAt rloc "integer division by zero in multiplicative expression" else pure d
   match left with
@@ -580,7 +674,7 @@ def icmp (op : Tok) (a c : Int) : Bool :=
   if op == Tok.great then a > c else if op == Tok.greatEquals then a ≥ c
   else if op == Tok.less then a < c else a ≤ c
 
-def evalNumericComparative (lloc : Loc) (op : Tok) (left right : Val) : M Val :=
+def evalNumericComparative (lloc : Loc) (op : Tok) (left right : Val) : P Val :=
   let needFloatPromotion := !isFloatV left && isFloatV right
   match left, right with
   | .opaque _, _ | .hidden _, _ => unsupported "numcmp on opaque"
@@ -615,7 +709,7 @@ def goFuncSig (id : String) : Option Sig :=
   else none
 
 /-- `Type.AssignableTo(in)` / `ConvertibleTo(in)` + `Convert(in)` for the modelled kinds -/
-def convertArg (ty : Ty) (v : Val) : M (Option Val) :=
+def convertArg (ty : Ty) (v : Val) : P (Option Val) :=
   match ty, v with
   | .any, v => pure (some v)
   | .string, .str s => pure (some (.str s))
@@ -650,26 +744,26 @@ def isAsciiSpace (c : UInt8) : Bool := c == 32 || c == 9 || c == 10 || c == 13 |
 def trimSpaceB (s : Bytes) : Bytes := ((s.dropWhile isAsciiSpace).reverse.dropWhile isAsciiSpace).reverse
 
 /-- a reflected Go function applied to converted arguments -/
-def applyGoFunc (id : String) (args : List Val) : M Val :=
+def applyGoFunc (id : String) (args : List Val) : P (Val × List LogE) :=
   match id, args with
-  | "lower", [.str s] => if isAsciiBytes s then pure (.str (lowerB s)) else unsupported "non-ASCII ToLower"
-  | "upper", [.str s] => if isAsciiBytes s then pure (.str (upperB s)) else unsupported "non-ASCII ToUpper"
-  | "trimSpace", [.str s] => if isAsciiBytes s then pure (.str (trimSpaceB s)) else unsupported "non-ASCII TrimSpace"
-  | "html", [.str s] => pure (.str (htmlEscape' s))
-  | "hasPrefix", [.str s, .str p] => pure (.bool (hasPrefixB s p))
-  | "hasSuffix", [.str s, .str p] => pure (.bool (hasSuffixB s p))
+  | "lower", [.str s] => if isAsciiBytes s then pure (.str (lowerB s), []) else unsupported "non-ASCII ToLower"
+  | "upper", [.str s] => if isAsciiBytes s then pure (.str (upperB s), []) else unsupported "non-ASCII ToUpper"
+  | "trimSpace", [.str s] => if isAsciiBytes s then pure (.str (trimSpaceB s), []) else unsupported "non-ASCII TrimSpace"
+  | "html", [.str s] => pure (.str (htmlEscape' s), [])
+  | "hasPrefix", [.str s, .str p] => pure (.bool (hasPrefixB s p), [])
+  | "hasSuffix", [.str s, .str p] => pure (.bool (hasSuffixB s p), [])
   | "repeat", [.str s, .int n] =>
     if n < 0 then crash "strings: negative Repeat count"
-    else if n * s.length > 100000 then unsupported "huge repeat" else pure (.str (repeatB n.toNat s))
-  | "probe", [.int id, v] => do logE (.probe id); pure (.iface (Val.indirectInterface v))
-  | "probeb", [.int id, .bool t] => do logE (.probe id); pure (.bool t)
+    else if n * s.length > 100000 then unsupported "huge repeat" else pure (.str (repeatB n.toNat s), [])
+  | "probe", [.int id, v] => pure (.iface (Val.indirectInterface v), [.probe id])
+  | "probeb", [.int id, .bool t] => pure (.bool t, [.probe id])
   | "fail", [.str _] => errPlain "function reported an error"
-  | "add3", [.int a, .int c, .int d] => pure (.int (Val.wrapI (a + c + d)))
+  | "add3", [.int a, .int c, .int d] => pure (.int (Val.wrapI (a + c + d)), [])
   | "cat", .str a :: rest =>
     (rest.foldlM (fun acc v => match v with
       | .str s => pure (acc ++ s)
-      | _ => crash "unreachable cat arg") a) >>= fun s => pure (.str s)
-  | "ident", [v] => pure (.iface (Val.indirectInterface v))
+      | _ => crash "unreachable cat arg") a) >>= fun s => pure (.str s, [])
+  | "ident", [v] => pure (.iface (Val.indirectInterface v), [])
   | _, _ => unsupported ("go func " ++ id)
 where
   /-- `html.EscapeString`: escapes `<>&'"` ( `'`→`&#39;`, `"`→`&#34;` ) -/
@@ -753,7 +847,7 @@ def evaluateArgs (r : Rec) (env : Env) (sig : Sig) (a : Args) : M (Except String
     -- the effective argument list: piped value first unless a slot takes it
     let conv (ty : Ty) (v : Val) (what : String) : M (Except String Val) := do
       if !v.isValid then pure (.error (what ++ " is not a valid value"))
-      else match ← convertArg ty v with
+      else match ← liftP (convertArg ty v) with
         | some x => pure (.ok x)
         | none => pure (.error (what ++ " is not convertible"))
     let tyAt (slot : Nat) : M Ty :=
@@ -796,7 +890,7 @@ def canonicalOf (env : Env) (path : Bytes) : Option (Bytes × Option Tmpl) :=
     | none => none
 
 /-- `Set.getSiblingTemplate(name, sibling)` against the pre-parsed store -/
-def getSibling (env : Env) (name sibling : Bytes) : M Tmpl :=
+def getSibling (env : Env) (name sibling : Bytes) : P Tmpl :=
   let p := Path.resolveSibling name sibling
   match canonicalOf env p with
   | none => errPlain "template could not be found"
@@ -919,38 +1013,12 @@ def applyJetFunc (r : Rec) (env : Env) (id0 : String) (a : Args) : M Val := do
     | some (_, none) => if isExec then errPlain "exec: template does not parse" else pure (.hidden false)
     | some (_, some t) =>
       let root ← liftOpt "extends chain too deep" (rootOf env 64 t)
-      newScope
-      -- defer releaseScope; defer Writer restore; defer context restore
-      let rt0 ← getRT
-      let w := rt0.writer
-      if isExec then modifyRT fun rt => { rt with writer := .discard }
-      setBlocks t.blocks
-      let run : M Val := do
-        if a.num > 1 then
-          let c ← getRT
-          let saved := c.ctx
-          let nc ← a.get r env 1
-          let res : M Val := fun rt =>
-            match (do let _ ← ctxSwap nc; r.execList env root.root) rt with
-            | .ok v rt' => .ok v { rt' with ctx := saved }
-            | .err e rt' => .err e { rt' with ctx := saved }
-            | .crash m rt' => .crash m { rt' with ctx := saved }
-            | .fuel => .fuel
-            | .unsupported x => .unsupported x
-          res
+      let inner : M Val := do
+        setBlocks t.blocks
+        if a.num > 1 then withCtxD (a.get r env 1) (r.execList env root.root)
         else r.execList env root.root
-      fun rt =>
-        let fin (rt' : RT) : RT :=
-          let rt' := if isExec then { rt' with writer := w } else rt'
-          match rt'.scope with
-          | [] => rt'            -- releaseScope on a nil scope would crash; keep state
-          | _ :: parent => { rt' with scope := parent }
-        match run rt with
-        | .ok v rt' => .ok (if isExec then v else .hidden true) (fin rt')
-        | .err e rt' => .err e (fin rt')
-        | .crash m rt' => .crash m (fin rt')
-        | .fuel => .fuel
-        | .unsupported x => .unsupported x
+      let v ← withNewScopeD (if isExec then withWriterD .discard inner else inner)
+      pure (if isExec then v else .hidden true)
   | "rec" => do
     -- harness recorder: logs the number of arguments, then evaluates each in order
     logE (.call "rec" a.num)
@@ -978,7 +1046,8 @@ def callValue (r : Rec) (env : Env) (fn : Val) (a : Args) : M (Except String Val
       match ← evaluateArgs r env sig a with
       | .error m => pure (.error ("call expression: " ++ m))
       | .ok args => do
-        let v ← applyGoFunc id args
+        let (v, logs) ← liftP (applyGoFunc id args)
+        modifyRT fun rt => { rt with log := logs.reverse ++ rt.log }
         pure (.ok (Val.indirectEface v))   -- `return indirectEface(returns[0]), nil`
   | .swriter _ => unsupported "SafeWriter called as a plain function"
   | _ => crash "unreachable: call of non-func"
@@ -994,16 +1063,22 @@ def kindIsFunc (v : Val) : Bool :=
   | .func _ | .jfunc _ | .swriter _ => true
   | _ => false
 
-def evalFieldPath (loc : Loc) : Val → List Bytes → M Val
+/-- positions an error that a helper *returned* (`node.error(err)`) -/
+def locateP (loc : Loc) {α} (p : P α) : P α :=
+  match p with
+  | .error (.err e) => if e.located then .error (.err e) else .error (.err { e with located := true, loc := loc })
+  | x => x
+
+def evalFieldPath (loc : Loc) : Val → List Bytes → P Val
   | v, [] => pure v
-  | v, f :: rest => do
-    let x ← (fun rt => match resolveIndex v .invalid (some f) rt with
-      | .err e rt' => .err { e with located := true, loc := loc } rt'
-      | y => y)
-    if !x.isValid then errAt loc "there is no field or method" else evalFieldPath loc x rest
+  | v, f :: rest =>
+    match resolveIndex v .invalid (some f) with
+    | .error (.err e) => .error (.err { e with located := true, loc := loc })
+    | .error x => .error x
+    | .ok x => if !x.isValid then errAt loc "there is no field or method" else evalFieldPath loc x rest
 
 /-- `evalChainNodeExpression` (errors are returned, positioned by the caller) -/
-def evalChainFields (base : Val) : List Bytes → M Val
+def evalChainFields (base : Val) : List Bytes → P Val
   | [] => pure base
   | [f] => do
     let x ← resolveIndex base .invalid (some f)
@@ -1015,11 +1090,6 @@ def evalChainFields (base : Val) : List Bytes → M Val
   | f :: rest => do
     let x ← resolveIndex base .invalid (some f)
     if !x.isValid then errPlain "there is no field or method" else evalChainFields x rest
-
-def locate (loc : Loc) {α} (m : M α) : M α := fun rt =>
-  match m rt with
-  | .err e rt' => if e.located then .err e rt' else .err { e with located := true, loc := loc } rt'
-  | x => x
 
 /-- `evalPrimaryExpressionGroup` / `evalBaseExpressionGroup` -/
 def evalExprF (r : Rec) (env : Env) (e : Expr) : M Val :=
@@ -1038,33 +1108,33 @@ def evalExprF (r : Rec) (env : Env) (e : Expr) : M Val :=
     | none => errAt loc "identifier not available"
   | .field loc names => do
     let rt ← getRT
-    evalFieldPath loc rt.ctx names
+    liftP (evalFieldPath loc rt.ctx names)
   | .chain loc base fields => do
     let bv ← r.evalExpr env base
-    locate loc (evalChainFields bv fields)
+    liftP (locateP loc (evalChainFields bv fields))
   | .underscore loc => errAt loc "unexpected node type in unary expression evaluating"
   | .add loc isPlus l rgt => do
     match l with
     | none => do
       let rv ← r.evalExpr env rgt
-      evalAdditive loc loc rgt.loc isPlus none rv
+      liftP (evalAdditive loc loc rgt.loc isPlus none rv)
     | some le => do
       let lv ← r.evalExpr env le
       let rv ← r.evalExpr env rgt
-      evalAdditive loc le.loc rgt.loc isPlus (some lv) rv
+      liftP (evalAdditive loc le.loc rgt.loc isPlus (some lv) rv)
   | .mul _ op l rgt => do
     let lv ← r.evalExpr env l
     let rv ← r.evalExpr env rgt
-    evalMultiplicative l.loc rgt.loc op lv rv
+    liftP (evalMultiplicative l.loc rgt.loc op lv rv)
   | .cmp _ isNeq l rgt => do
     let lv ← r.evalExpr env l
     let rv ← r.evalExpr env rgt
-    let eq ← checkEquality lv rv
+    let eq ← liftP (checkEquality lv rv)
     pure (.bool (if isNeq then !eq else eq))
   | .numcmp _ op l rgt => do
     let lv ← r.evalExpr env l
     let rv ← r.evalExpr env rgt
-    evalNumericComparative l.loc op lv rv
+    liftP (evalNumericComparative l.loc op lv rv)
   | .logic _ isAnd l rgt => do
     let lv ← r.evalExpr env l
     let lt ← liftOpt "isTrue" (Val.isTrue lv)
@@ -1097,7 +1167,7 @@ def evalExprF (r : Rec) (env : Env) (e : Expr) : M Val :=
   | .index loc base idx => do
     let bv ← r.evalExpr env base
     let iv ← r.evalExpr env idx
-    locate loc (resolveIndex bv iv none)
+    liftP (locateP loc (resolveIndex bv iv none))
   | .slice loc base i j => do
     let bv ← r.evalExpr env base
     let numOf (x : Expr) : M Int := do
@@ -1131,10 +1201,11 @@ def evalExprF (r : Rec) (env : Env) (e : Expr) : M Val :=
 
 /-- `Runtime.isSet` with Go's catch-all `recover()` -/
 def isSetF (r : Rec) (env : Env) (e : Expr) : M Bool :=
+  -- the recover handler resets scope, context and content to their values at entry
   let guard (m : M Bool) : M Bool := fun rt =>
     match m rt with
-    | .err _ rt' => .ok false rt'
-    | .crash _ rt' => .ok false rt'
+    | .err _ rt' => .ok false { rt' with scope := rt.scope, ctx := rt.ctx, content := rt.content }
+    | .crash _ rt' => .ok false { rt' with scope := rt.scope, ctx := rt.ctx, content := rt.content }
     | x => x
   guard (match e with
   | .index _ base idx => do
@@ -1144,7 +1215,7 @@ def isSetF (r : Rec) (env : Env) (e : Expr) : M Bool :=
     if !b2 then pure false else
     let bv ← r.evalExpr env base
     let iv ← r.evalExpr env idx
-    let x ← resolveIndex bv iv none
+    let x ← liftP (resolveIndex bv iv none)
     pure (Val.notNil x)
   | .ident _ name => do
     match ← resolve env name with
@@ -1155,30 +1226,16 @@ def isSetF (r : Rec) (env : Env) (e : Expr) : M Bool :=
     let rec go (v : Val) : List Bytes → M Bool
       | [] => pure true
       | f :: rest => do
-        let x ← resolveIndex v .invalid (some f)
+        let x ← liftP (resolveIndex v .invalid (some f))
         if !Val.notNil x then pure false else go x rest
     go rt.ctx names
   | .chain _ base fields => do
     let bv ← r.evalExpr env base
-    let x ← evalChainFields bv fields
+    let x ← liftP (evalChainFields bv fields)
     pure (Val.notNil x)
   | _ => pure true)
 
 /-! #### statements -/
-
-/-- run `m`, then `fin` on the resulting runtime whether `m` finished or panicked: a `defer` -/
-def deferred {α} (fin : RT → RT) (m : M α) : M α := fun rt =>
-  match m rt with
-  | .ok a rt' => .ok a (fin rt')
-  | .err e rt' => .err e (fin rt')
-  | .crash s rt' => .crash s (fin rt')
-  | .fuel => .fuel
-  | .unsupported w => .unsupported w
-
-def popScope (rt : RT) : RT :=
-  match rt.scope with
-  | [] => rt
-  | _ :: parent => { rt with scope := parent }
 
 /-- `executeSet(left, right)` -/
 def executeSet (r : Rec) (env : Env) (left : Expr) (right : Val) : M Unit :=
@@ -1297,7 +1354,7 @@ def rangerNext : RangerSt → (Val × Val × Bool) × RangerSt
     ((.int i', .int val', val' == to), .intsR i' val' to)
 
 /-- `getRanger(v)` -/
-def getRanger (v : Val) : M RangerSt :=
+def getRanger (v : Val) : P RangerSt :=
   if !v.isValid then errPlain "can't range over invalid value" else
   match v with
   | .intsRanger f t => pure (.intsR (-1) (f - 1) t)
@@ -1312,77 +1369,72 @@ def getRanger (v : Val) : M RangerSt :=
 
 def invokeContent (r : Rec) (env : Env) (c : Closure) (ctxE : Option Expr) : M Unit :=
   match c with
-  | .mk body myscope mycontent => do
-    let rt ← getRT
-    let outscope := rt.scope
-    let outcontent := rt.content
-    modifyRT fun rt => { rt with scope := myscope, content := mycontent }
-    match ctxE with
-    | some e => do
-      let rt1 ← getRT
-      let saved := rt1.ctx
-      let nv ← r.evalExpr env e
-      modifyRT fun rt => { rt with ctx := nv }
-      let _ ← r.execList env body
-      modifyRT fun rt => { rt with ctx := saved }
-    | none => do
-      let _ ← r.execList env body
-      pure ()
-    modifyRT fun rt => { rt with scope := outscope, content := outcontent }
+  | .mk body myscope mycontent =>
+    withScopeContentND myscope mycontent (
+      match ctxE with
+      | some e => do
+        let nv ← r.evalExpr env e
+        withCtxND nv (do let _ ← r.execList env body; pure ())
+      | none => do
+        let _ ← r.execList env body
+        pure ())
 
 /-- `executeYieldBlock(node, block, blockParam, yieldParam, expression, content)` -/
+def bindYieldParams (r : Rec) (env : Env) (nodeLoc : Loc) : List Param → M Unit
+  | [] => pure ()
+  | p :: ps => do
+    match p.dflt with
+    | none => errAt nodeLoc "missing name for block parameter"
+    | some e => do
+      let v ← r.evalExpr env e
+      letVar p.name v
+      bindYieldParams r env nodeLoc ps
+
+def varInCurrentFrame (rt : RT) (name : Bytes) : Bool :=
+  match rt.scope with
+  | cur :: _ => match frameAt rt cur with
+    | some f => match f.vars with
+      | some vs => (alookup name vs).isSome
+      | none => false
+    | none => false
+  | [] => false
+
+def bindBlockParams (r : Rec) (env : Env) : List Param → M Unit
+  | [] => pure ()
+  | p :: ps => do
+    let rt ← getRT
+    if !varInCurrentFrame rt p.name then
+      match p.dflt with
+      | none => letVar p.name (.bool false)
+      | some e => do
+        let v ← r.evalExpr env e
+        letVar p.name v
+    bindBlockParams r env ps
+
+/-- the part of executeYieldBlock after the parameter scope is set up -/
+def yieldBody (r : Rec) (env : Env) (block : BlockN) (ctxE : Option Expr) (content : Option (List Stmt)) : M Unit := do
+  let rt ← getRT
+  let run : M Unit :=
+    match ctxE with
+    | some e => do
+      let nv ← r.evalExpr env e
+      withCtxND nv (do let _ ← r.execList env block.body; pure ())
+    | none => do
+      let _ ← r.execList env block.body
+      pure ()
+  match content with
+  | some body => withContentND (some (.mk body rt.scope rt.content)) run
+  | none => withContentND rt.content run
+
 def executeYieldBlock (r : Rec) (env : Env) (nodeLoc : Loc) (block : BlockN)
-    (blockParams yieldParams : List Param) (ctxE : Option Expr) (content : Option (List Stmt)) : M Unit := do
+    (blockParams yieldParams : List Param) (ctxE : Option Expr) (content : Option (List Stmt)) : M Unit :=
   let needNewScope := blockParams.length > 0 || yieldParams.length > 0
   if needNewScope then
-    newScope
-    let rec bindYield : List Param → M Unit
-      | [] => pure ()
-      | p :: ps => do
-        match p.dflt with
-        | none => errAt nodeLoc "missing name for block parameter"
-        | some e => do
-          let v ← r.evalExpr env e
-          letVar p.name v
-          bindYield ps
-    bindYield yieldParams
-    let rec bindBlock : List Param → M Unit
-      | [] => pure ()
-      | p :: ps => do
-        let rt ← getRT
-        let found := match rt.scope with
-          | cur :: _ => match frameAt rt cur with
-            | some f => match f.vars with
-              | some vs => (alookup p.name vs).isSome
-              | none => false
-            | none => false
-          | [] => false
-        if !found then
-          match p.dflt with
-          | none => letVar p.name (.bool false)
-          | some e => do
-            let v ← r.evalExpr env e
-            letVar p.name v
-        bindBlock ps
-    bindBlock blockParams
-  let rt ← getRT
-  let mycontent := rt.content
-  match content with
-  | some body => modifyRT fun rt => { rt with content := some (.mk body rt.scope mycontent) }
-  | none => pure ()
-  match ctxE with
-  | some e => do
-    let rt1 ← getRT
-    let saved := rt1.ctx
-    let nv ← r.evalExpr env e
-    modifyRT fun rt => { rt with ctx := nv }
-    let _ ← r.execList env block.body
-    modifyRT fun rt => { rt with ctx := saved }
-  | none => do
-    let _ ← r.execList env block.body
-    pure ()
-  modifyRT fun rt => { rt with content := mycontent }
-  if needNewScope then releaseScope
+    withNewScopeND (do
+      bindYieldParams r env nodeLoc yieldParams
+      bindBlockParams r env blockParams
+      yieldBody r env block ctxE content)
+  else yieldBody r env block ctxE content
 
 /-- `executeTry` -/
 def executeTry (r : Rec) (env : Env) (body : List Stmt) (hasCatch : Bool) (catchVar : Option Bytes)
@@ -1391,8 +1443,9 @@ def executeTry (r : Rec) (env : Env) (body : List Stmt) (hasCatch : Bool) (catch
   let scope := rt.scope
   let context := rt.ctx
   let content := rt.content
-  let bufId := rt.bufs.length
-  let rt1 := { rt with bufs := rt.bufs ++ [[]], writer := .buf bufId }
+  let bufId := rt.nbufs
+  let rt1 := { rt with nbufs := rt.nbufs + 1, writer := .buf bufId,
+                       sink := fun j => if j = bufId + 1 then [] else rt.sink j }
   let onPanic (errVal : Val) (rt' : RT) : Res Val :=
     -- deferred: st.Writer = writer; then the recover handler
     let rt' := { rt' with writer := writer, scope := scope, ctx := context, content := content }
@@ -1413,7 +1466,7 @@ def executeTry (r : Rec) (env : Env) (body : List Stmt) (hasCatch : Bool) (catch
   match r.execList env body rt1 with
   | .ok v rt' =>
     let rt' := { rt' with writer := writer }
-    let buffered := (rt'.bufs[bufId]?).getD []
+    let buffered := rt'.sink (bufId + 1)
     .ok v (appendTo rt' writer buffered.reverse)
   | .err e rt' => onPanic (.errv e.located e.loc) rt'
   | .crash _ rt' => onPanic (.opaque "runtime.Error") rt'
@@ -1428,19 +1481,12 @@ def executeInclude (r : Rec) (env : Env) (loc : Loc) (nameE : Expr) (ctxE : Opti
     | .str s => pure s
     | .opaque _ | .errv _ _ | .ptr _ _ | .struct _ _ => unsupported "include name kind (Stringer?)"
     | _ => errAt loc "evaluating name of template to include: unexpected expression type")
-  let t ← locate loc (getSibling env name loc.path)
-  newScope
-  deferred popScope (do
+  let t ← liftP (locateP loc (getSibling env name loc.path))
+  withNewScopeD (do
     setBlocks t.blocks
     let root ← liftOpt "extends chain too deep" (rootOf env 64 t)
     match ctxE with
-    | some e => do
-      let rt ← getRT
-      let saved := rt.ctx
-      deferred (fun rt => { rt with ctx := saved }) (do
-        let nv ← r.evalExpr env e
-        modifyRT fun rt => { rt with ctx := nv }
-        r.execList env root.root)
+    | some e => withCtxD (r.evalExpr env e) (r.execList env root.root)
     | none => r.execList env root.root)
 
 /-- one statement of `executeList`; returns the value of a `return` it executed (invalid if none)
@@ -1470,18 +1516,18 @@ def execStmt (r : Rec) (env : Env) (inNewScope : Bool) (s : Stmt) : M (Val × Va
       pure (.invalid, .invalid, ins)
     | none => pure (.invalid, .invalid, ins)
   | .ifS _ set cond thn els => do
-    let isLet ← (match set with
-      | some st =>
-        if st.isLet then do newScope; executeAssign r env st; pure true
-        else do executeAssign r env st; pure false
-      | none => pure false)
-    let cv ← r.evalExpr env cond
-    let t ← liftOpt "isTrue" (Val.isTrue cv)
-    let ret ← (if t then r.execList env thn
+    let branches : M Val := do
+      let cv ← r.evalExpr env cond
+      let t ← liftOpt "isTrue" (Val.isTrue cv)
+      if t then r.execList env thn
       else match els with
         | some l => r.execList env l
-        | none => pure .invalid)
-    if isLet then releaseScope
+        | none => pure .invalid
+    let ret ← (match set with
+      | some st =>
+        if st.isLet then withNewScopeND (do executeAssign r env st; branches)
+        else do executeAssign r env st; branches
+      | none => branches)
     pure (ret, .invalid, inNewScope)
   | .rangeS loc set e body els => do
     let rt0 ← getRT
@@ -1498,7 +1544,7 @@ def execStmt (r : Rec) (env : Env) (inNewScope : Bool) (s : Stmt) : M (Val × Va
         | some ex => do let v ← r.evalExpr env ex; pure (v, false, 0)
         | none => crash "nil expression in range")
     let isSet := set.isSome
-    let rg ← locate loc (getRanger expression)
+    let rg ← liftP (locateP loc (getRanger expression))
     let providesIndex := true   -- all modelled rangers provide an index
     let keySlot : Option Nat := if isSet then some 0 else none
     let valSlot : Option Nat := if isSet && nLeft > 1 then some 1 else none
@@ -1637,9 +1683,9 @@ def execute (fuel : Nat) (env : Env) (t : Tmpl) (vars : List (Bytes × Val)) (da
   | none => .unsupported "extends chain"
   | some root =>
     match (recAt fuel).execList env root.root (initRT t vars data) with
-    | .ok _ rt => .ok rt.top.reverse rt.log.reverse
-    | .err e rt => .err e rt.top.reverse rt.log.reverse
-    | .crash m rt => .crash m rt.top.reverse
+    | .ok _ rt => .ok (rt.sink 0).reverse rt.log.reverse
+    | .err e rt => .err e (rt.sink 0).reverse rt.log.reverse
+    | .crash m rt => .crash m (rt.sink 0).reverse
     | .fuel => .fuel
     | .unsupported w => .unsupported w
 
